@@ -74,6 +74,16 @@ func c03Mutators() []depMutator {
 			d.IntermediateProof = append(append([]byte(nil), d.IntermediateProof...), make([]byte, 32)...)
 			return true
 		}},
+		{"proof-ragged", func(b *bridgeHist, t *depTruth, d *bitcointypes.Deposit, hs *[]*bitcointypes.BlockHeader) bool {
+			// a genuine path followed by 1..31 bytes: not a whole number of nodes
+			d.IntermediateProof = append(append([]byte(nil), d.IntermediateProof...), make([]byte, 1+b.lh.r.Intn(31))...)
+			return true
+		}},
+		{"header-listed-twice", func(b *bridgeHist, t *depTruth, d *bitcointypes.Deposit, hs *[]*bitcointypes.BlockHeader) bool {
+			// the genuine header and a second entry for the same height (the batch then has more headers than deposits)
+			*hs = append(*hs, &bitcointypes.BlockHeader{Height: t.Block.Height, Raw: flip(t.Block.Header, 70)})
+			return true
+		}},
 		{"proof-bitflip", func(b *bridgeHist, t *depTruth, d *bitcointypes.Deposit, hs *[]*bitcointypes.BlockHeader) bool {
 			if len(d.IntermediateProof) == 0 {
 				return false
@@ -401,6 +411,13 @@ func c03Gen(b *bridgeHist, blk int, muts []depMutator) {
 		case x == 7 && len(done) > 0: // replay of a credited deposit
 			t := done[r.Intn(len(done))]
 			b.ops = append(b.ops, b.depositsOp([]*bitcointypes.Deposit{b.genuineDeposit(t)}, hdrsFor([]*depTruth{t}), "replay-credited", false))
+		case x == 8 && len(fresh) > 0 && r.Intn(2) == 0: // seventeen items: one more than a batch may carry
+			t := fresh[0]
+			var items []*bitcointypes.Deposit
+			for len(items) < 17 {
+				items = append(items, b.genuineDeposit(t))
+			}
+			b.ops = append(b.ops, b.depositsOp(items, hdrsFor([]*depTruth{t}), "seventeen-items", false))
 		case x == 8 && len(fresh) > 0: // duplicate inside one batch
 			t := fresh[0]
 			b.ops = append(b.ops, b.depositsOp([]*bitcointypes.Deposit{b.genuineDeposit(t), b.genuineDeposit(t)}, hdrsFor([]*depTruth{t}), "duplicate-in-batch", false))
